@@ -187,8 +187,8 @@ func TestVerifRows(t *testing.T) {
 					if prefilled && !d.slice {
 						continue
 					}
-					if !d.tagged && fmt.Sprint(cols) != "[a b c]" && len(cols) >= 3 {
-						continue // untagged: positional, columns == fields, declared order only
+					if !d.tagged && len(cols) >= 3 && fmt.Sprint(cols[:3]) != "[a b c]" {
+						continue // untagged: positional - the columns in the declared order of the fields (any extra ones after them)
 					}
 					if strings.HasSuffix(d.name, "/partial-only") && strict {
 						continue // how strict mode counts a field tagged "-" is not stated
@@ -331,6 +331,9 @@ func TestVerifRows(t *testing.T) {
 								}
 							} else {
 								for i, col := range cols {
+									if i >= len(byPos) {
+										break // extra columns have no field
+									}
 									if byPos[i] != colValue(col, r) {
 										c.Violation(in, "positional mapping", fmt.Sprintf("row %d: field #%d = %v, column %s holds %v", r, i, byPos[i], col, colValue(col, r)))
 									}
